@@ -94,9 +94,12 @@ type connState struct {
 
 	// messageSize is the maximum message size. The server does not
 	// do automatic splitting of messages.
-	messageSize   uint32
-	readBufPool   sync.Pool
-	pristineZeros []byte
+	messageSize uint32
+
+	// readBufs are the read buffers for the negotiated message size. A
+	// Tversion replaces them as a whole; every read keeps using the set it
+	// started with until its reply has been sent and cleaned up.
+	readBufs atomic.Pointer[readBuffers]
 
 	// baseVersion is the version of 9P protocol.
 	baseVersion baseVersion
@@ -131,6 +134,13 @@ type connState struct {
 }
 
 // xattrOp is the xattr related operations, walk or create.
+// readBuffers is a pool of message-size-shaped read buffers together with the
+// zeros used to wipe them.
+type readBuffers struct {
+	pool          sync.Pool
+	pristineZeros []byte
+}
+
 type xattrOp int
 
 const (
